@@ -353,6 +353,17 @@ func udpInodesOnce() []string {
 	return out
 }
 
+// holdsPort: this process has a TCP listening socket or a UDP socket on the port.
+func (r *lfRig) holdsPort(port int) bool {
+	hex := fmt.Sprintf(":%04X#", port)
+	for _, l := range append(listeningInodes(), udpInodes()...) {
+		if strings.Contains(l, hex) {
+			return true
+		}
+	}
+	return false
+}
+
 func hookNames() []string {
 	h := append([]string(nil), casket.ListPlugins()["event_hooks"]...)
 	sort.Strings(h)
@@ -797,6 +808,14 @@ func (r *lfRig) attempt(a lfAttempt) {
 			r.failedTexts = map[string]string{}
 		}
 		r.failedTexts[cfg.text] = err.Error()
+	}
+	if !expectFail && err != nil && a.envFixed && cfg.extra != 0 && strings.Contains(err.Error(), "address already in use") && !r.holdsPort(cfg.extra) {
+		// The port the rig had given up was taken by another process before casket bound it (the
+		// checks run sixteen processes side by side, each binding ephemeral ports): the environment
+		// is not repaired after all. No socket of this process is on that port, so nothing was left behind.
+		c.Probe("repaired-port-taken-by-another-process")
+		r.aborted = true
+		return
 	}
 	if !expectFail && err != nil {
 		what := "valid configuration"
